@@ -75,6 +75,12 @@ func seqCase(c rec.Case, st *ev.Stats) error {
 					return fmt.Errorf("after %s: tx %s(%v): TimeAfter %v but Machine.Time in TransitionEnd %v",
 						out.Step, tx.Type, tx.Called, tx.TimeAfter, tx.MachTime)
 				}
+				// ... and while the final handlers run: the new states are applied and visible, the transition's
+				// after-time must already be the machine's time (also when only a part of an auto mutation got accepted)
+				if tx.Finals && tx.FinTimeAfter != nil && !tx.FinTimeAfter.Equal(true, tx.FinMachTime) {
+					return fmt.Errorf("after %s: tx %s(%v) auto=%v: in TransitionFinals the transition's TimeAfter is %v but Machine.Time is %v",
+						out.Step, tx.Type, tx.Called, tx.IsAuto, tx.FinTimeAfter, tx.FinMachTime)
+				}
 				changedTx := !tx.TimeBefore.Equal(true, tx.TimeAfter)
 				if tx.Accepted && changedTx {
 					flags.changed = true
